@@ -121,3 +121,83 @@ Proof.
   assert (E : length file - length f1 = k) by (subst f1; rewrite skipn_length; lia).
   cbv zeta. rewrite E. auto.
 Qed.
+
+(* ---------- the multiprocessing write loop: what the source is asked for does not depend on the pool ---------- *)
+Theorem pool_requests_worker_independent w n cs : map fst (pool_steps w n cs) = slices n cs.
+Proof. unfold pool_steps. rewrite map_map. cbn [fst]. apply map_id. Qed.
+
+Lemma array_split_sizes_length n k : length (array_split_sizes n k) = k.
+Proof. unfold array_split_sizes. rewrite map_length, seq_length. reflexivity. Qed.
+
+Theorem pool_tasks_partition w n cs : 1 <= w ->
+  Forall (fun st => length (snd st) = w /\ fold_right Nat.add 0 (snd st) = slice_len (fst st))
+         (pool_steps w n cs).
+Proof.
+  intros Hw. unfold pool_steps. apply Forall_forall. intros st Hin.
+  apply in_map_iff in Hin. destruct Hin as (se & <- & _). cbn [fst snd].
+  split; [apply array_split_sizes_length|apply array_split_sizes_sum; exact Hw].
+Qed.
+
+Theorem pool_requests_spec w n cs : 1 <= cs ->
+  concat (map range (map fst (pool_steps w n cs))) = seq 0 n /\
+  Forall (fun se => 1 <= slice_len se <= cs /\ snd se <= n) (map fst (pool_steps w n cs)).
+Proof.
+  intros Hcs. rewrite pool_requests_worker_independent.
+  split; [apply slices_cover|apply slices_bound]; exact Hcs.
+Qed.
+
+Lemma slices_first n cs : 1 <= n -> exists r, slices n cs = (0, Nat.min cs n) :: r.
+Proof.
+  intros Hn. unfold slices. destruct n as [|m]; [lia|]. cbn [slices_from].
+  destruct (Nat.leb_spec (S m) 0); [lia|]. eexists. reflexivity.
+Qed.
+
+Theorem larger_chunk_refuted n cs cs' : cs < cs' -> cs < n ->
+  exists se, In se (slices n cs') /\ cs < slice_len se.
+Proof.
+  intros Hc Hn. destruct (slices_first n cs' ltac:(lia)) as (r & ->).
+  exists (0, Nat.min cs' n). split; [left; reflexivity|]. unfold slice_len. cbn [fst snd]. lia.
+Qed.
+
+Theorem smaller_chunk_ok n cs cs' : 1 <= cs' <= cs ->
+  concat (map range (slices n cs')) = seq 0 n /\
+  Forall (fun se => 1 <= slice_len se <= cs /\ snd se <= n) (slices n cs').
+Proof.
+  intros H. split; [apply slices_cover; lia|].
+  eapply Forall_impl; [|apply slices_bound; lia]. cbn beta. intros se Hse. lia.
+Qed.
+
+Lemma round_up_spec cs w : 1 <= w ->
+  (round_up cs w) mod w = 0 /\ cs <= round_up cs w < cs + w.
+Proof.
+  intros Hw. unfold round_up.
+  pose proof (Nat.mod_upper_bound cs w ltac:(lia)) as Hr.
+  pose proof (Nat.div_mod cs w ltac:(lia)) as Hd.
+  destruct (Nat.eq_dec (cs mod w) 0) as [Hz|Hnz].
+  - rewrite Hz, Nat.sub_0_r, Nat.mod_same by lia. rewrite Nat.add_0_r. split; [exact Hz|lia].
+  - rewrite (Nat.mod_small (w - cs mod w) w) by lia. split; [|lia].
+    replace (cs + (w - cs mod w)) with ((cs / w + 1) * w) by nia.
+    apply Nat.mod_mul. lia.
+Qed.
+
+Lemma round_up_fix cs w : 1 <= w -> cs mod w = 0 -> round_up cs w = cs.
+Proof. intros Hw Hz. unfold round_up. rewrite Hz, Nat.sub_0_r, Nat.mod_same by lia. lia. Qed.
+
+Lemma round_up_gt cs w : 1 <= w -> cs mod w <> 0 -> cs < round_up cs w.
+Proof.
+  intros Hw Hnz. unfold round_up. pose proof (Nat.mod_upper_bound cs w ltac:(lia)).
+  rewrite (Nat.mod_small (w - cs mod w) w) by lia. lia.
+Qed.
+
+Theorem pool_rounded_same w n cs : 1 <= w -> cs mod w = 0 ->
+  pool_steps_rounded w n cs = pool_steps w n cs.
+Proof. intros Hw Hz. unfold pool_steps_rounded. rewrite round_up_fix by assumption. reflexivity. Qed.
+
+Theorem pool_rounded_refuted w n cs : 1 <= w -> cs mod w <> 0 -> cs < n ->
+  exists st, In st (pool_steps_rounded w n cs) /\ cs < slice_len (fst st).
+Proof.
+  intros Hw Hnz Hn. pose proof (round_up_gt cs w Hw Hnz) as Hgt.
+  destruct (larger_chunk_refuted n cs (round_up cs w) Hgt Hn) as (se & Hin & Hlen).
+  exists (se, array_split_sizes (slice_len se) w). split; [|exact Hlen].
+  unfold pool_steps_rounded, pool_steps. apply in_map_iff. exists se. split; [reflexivity|exact Hin].
+Qed.
